@@ -218,10 +218,11 @@ def numbering(nblocks, wrap):
 
 PACKET_ALPHABET = [
     ("ack0", ack(0)), ("ack1", ack(1)), ("ack2", ack(2)), ("ack3", ack(3)),
-    ("err0", err(0)), ("err8", err(8)), ("err9", err(9, b"")), ("errshort", b"\x00\x05"),
+    ("err0", err(0)), ("err5", err(5)), ("err9", err(9, b"")), ("errshort", b"\x00\x05"),
     ("short", b"\x00"), ("empty", b""), ("ack5b", b"\x00\x04\x00\x01\x00"), ("ack3b", b"\x00\x04\x00"),
     ("op7", b"\x00\x07ab"), ("data", b"\x00\x03\x00\x01x"), ("rrq", b"\x00\x01f\x00octet\x00"),
-    ("oack", b"\x00\x06blksize\x008\x00"), ("op0", b"\x00\x00\x00\x01"),
+    ("oack", b"\x00\x06blksize\x008\x00"), ("op0", b"\x00\x00\x00\x01"), ("err8", err(8)), ("err1", err(1, b"")),
+    ("err3nonul", b"\x00\x05\x00\x03abc"), ("err2latin", b"\x00\x05\x00\x02\xe4\xff\x00"),
 ]
 
 
